@@ -103,6 +103,28 @@
     orient!(d2_r1_k2_b5, depth2, true, 2, 5);
     orient!(d2_r0_k3_b5, depth2, false, 3, 5);
 
+    // depth 2 over the whole orientation group: all 8 x 8 (outer, inner) orientation pairs, concrete; offsets and point symbolic, few bits
+    fn group2(bits: u32) {
+        let (x, y) = (any_coord(bits), any_coord(bits));
+        let (ox, oy, ix, iy) = (any_coord(bits), any_coord(bits), any_coord(bits), any_coord(bits));
+        let mut n: u8 = 0;
+        while n < 64 {
+            let outer = Place { lx: ox, ly: oy, refl: n & 1 != 0, k: (n >> 1) & 3 };
+            let inner = Place { lx: ix, ly: iy, refl: n & 8 != 0, k: (n >> 4) & 3 };
+            let t = Transform::cascade(&transform_of(outer, false), &transform_of(inner, false));
+            let p = Point::new(x, y).transform(&t);
+            let i = exact(inner, x, y);
+            let e = exact(outer, i.0, i.1);
+            assert!(p.x == e.0 && p.y == e.1);
+            n += 1;
+        }
+    }
+    #[kani::proof]
+    #[kani::stub(f64::sin, sin_stub)]
+    #[kani::stub(f64::cos, cos_stub)]
+    #[kani::unwind(65)]
+    fn d2_group_b3() { group2(3); }
+
     // the elementary transforms alone (matrix entries exactly 0/1/-1, no libm involved), 16-bit coordinates
     #[kani::proof]
     fn elementary_exact() {
